@@ -198,9 +198,18 @@ def run(ctx):
                     if d > XTOL or bool(lk.increasing) != bool(ref.increasing):
                         ctx.violation("C04:route:lookup", "tile %s [%s] from point lookup has different corners than enumeration (%.2e)" % (pos, csname, d), {"pos": pos, "cs": csname})
     # seeded deep positions (corners and orientation through single-tile construction vs psi)
-    for _ in range(60 if q else 1500):
-        n = ctx.rng.randint(6, 20)
-        x, y = ctx.rng.randrange(2 ** n), ctx.rng.randrange(2 ** n)
+    def special(n):
+        h = 2 ** (n - 1)
+        return ctx.rng.choice([0, 1, 2, 2 ** n - 1, 2 ** n - 2, h - 2, h - 1, h, h + 1, ctx.rng.randrange(2 ** n)])
+    for k in range(90 if q else 2000):
+        if k % 3 == 0:
+            # very deep tiles next to the poles, the square's corners, its centre cross and its edges, where coordinates are
+            # closest to singular values
+            n = ctx.rng.randint(21, 30)
+            x, y = special(n), special(n)
+        else:
+            n = ctx.rng.randint(6, 20)
+            x, y = ctx.rng.randrange(2 ** n), ctx.rng.randrange(2 ** n)
         csname, cs = ctx.rng.choice(toastlat.coordsystems())
         psi = toastlat.psi_for(t, csname)
         one = toast.create_single_tile(Pos(n, x, y), coordsys=cs)
@@ -209,8 +218,17 @@ def run(ctx):
         ctx.count()
         ctx.distinct((csname, (n, x, y)))
         worst["corner"] = max(worst["corner"], err)
-        if err > TOL or bool(one.increasing) != lattice.inc(n, x, y):
+        tol_deep = min(TOL, 0.02 * 2 * np.pi / 2 ** n)          # a fiftieth of a tile width, for the deepest tiles
+        if err > tol_deep or bool(one.increasing) != lattice.inc(n, x, y):
             ctx.violation("C04:single:deep", "create_single_tile((%d, %d, %d)) [%s] is %.2e away from the subdivision of the documented layout" % (n, x, y, csname, err), {"pos": (n, x, y), "cs": csname})
+        if n < 30:
+            # nesting at this depth: the four children tile the parent (shared corners / edge midpoints identical)
+            ov = toastlat.tile_vecs(one)
+            for i, kid in enumerate(toast._div4(one)):
+                kv = toastlat.tile_vecs(kid)
+                if float(np.abs(kv[i if i < 2 else (5 - i)] - ov[i if i < 2 else (5 - i)]).max()) > 1e-15 * 64:
+                    ctx.violation("C04:div4:deep-nesting", "child %d of tile (%d, %d, %d) [%s] does not keep the parent's corner" % (i, n, x, y, csname), {"pos": (n, x, y), "cs": csname})
+                    break
     ctx.note("worst_deviation", worst)
     ctx.sample({"tile": list(t.tiles[len(t.tiles) // 2]["pos"]), "lattice_corners": t.tiles[len(t.tiles) // 2]["c"], "increasing": t.tiles[len(t.tiles) // 2]["inc"], "R": t.R})
     ctx.sample({"def_table_entry": t.defs[len(t.defs) // 3]})
